@@ -5,6 +5,7 @@ mod conn;
 mod files;
 mod frames;
 mod net;
+mod text;
 mod values;
 mod wire;
 
@@ -259,6 +260,9 @@ fn main() {
         "wire-dec" => wire::cmd_wire_dec(&a),
         "builder-replay" => builder::cmd_builder_replay(&a),
         "files-replay" => files::cmd_files_replay(&a),
+        "text-replay" => text::cmd_text_replay(&a),
+        "text-trace" => text::cmd_text_trace(&a),
+        "text-fields" => text::cmd_text_fields(&a),
         "values-replay" => values::cmd_values_replay(&a),
         "values-trace" => values::cmd_values_trace(&a),
         "values-rerun" => values::cmd_values_rerun(&a),
